@@ -139,9 +139,11 @@ def stepWith (oracle : Case → Summary → Bool) (leakStrict : Bool := false) (
       if impl == "none" then some (none, true) else
       match impl.splitOn ":" with
       | [a, b, after] => (do pure (some (← decStr a, ← b.toNat?), after == b))
+      -- ... and the count a second resumption presents after three more stanzas were received on the resumed session
+      | [a, b, after, h2] => (do pure (some (← decStr a, ← b.toNat?), after == b && h2.toNat? == some ((← b.toNat?) + 3)))
       | _ => none
     match i with
-    | some (i, cont) => (d, ⟨showR m ++ (match m with | some (_, h) => ":" ++ toString h | none => ""), decide (m = i) && cont, holdsResume c m, holdsResume c i && cont, "-"⟩)
+    | some (i, cont) => (d, ⟨showR m ++ (match m with | some (_, h) => ":" ++ toString h ++ ":" ++ toString (h + 3) | none => ""), decide (m = i) && cont, holdsResume c m, holdsResume c i && cont, "-"⟩)
     | none => (d, ⟨showR m, false, holdsResume c m, false, "-"⟩)
   | _ =>
     match parseIn fields with
